@@ -38,7 +38,7 @@ CONSTANT Mutant    \* "none": glom as repaired;  otherwise a named deviation of 
 
 N(k, a, c) == [k |-> k, a |-> a, c |-> c]
 
-GlomitKinds == {"new", "same", "fail", "probe", "read", "sbind", "abind", "gbind", "gread", "pipe", "coal",
+GlomitKinds == {"new", "same", "fail", "smiss", "probe", "read", "sbind", "abind", "gbind", "gread", "pipe", "coal",
                 "or", "and", "not", "switch", "mdict", "auto", "fill", "match", "spec"}
 ModeOf(k) == CASE k = "auto" -> "AUTO" [] k = "fill" -> "FILL" [] k = "match" -> "MATCH"
 
@@ -103,7 +103,8 @@ Resolve(frames, f, name) ==
 
 \* ---- control: Run ------------------------------------------------------------------------------
 Res(st, out, res, org, e) == [st |-> st, out |-> out, res |-> res, org |-> org, e |-> e]
-NewErr(st) == [st EXCEPT !.eid = @ + 1]
+\* a new exception is raised in frame f (n: leaf execution number, 0 for other origins)
+NewErr(st, f, n) == [st EXCEPT !.eid = @ + 1, !.errs = Append(@, [org |-> f, n |-> n])]
 Log(st, rec) == [st EXCEPT !.log = Append(@, rec @@ [at |-> Len(st.acts)])]   \* at: actions taken so far
 
 RECURSIVE Run(_, _, _, _, _), RunChain(_, _, _, _, _, _, _), RunAll(_, _, _, _, _, _, _),
@@ -121,9 +122,10 @@ Run(st0, par, node, path, tgt) ==
                LET n == st2.leaf + 1
                    o == IF n <= Len(st2.plan) THEN st2.plan[n] ELSE "ok"
                    st3 == [st2 EXCEPT !.leaf = n]
-               IN IF o = "err" THEN Res(NewErr(st3), "err", tgt, f, st3.eid + 1)
+               IN IF o = "err" THEN Res(NewErr(st3, f, n), "err", tgt, f, st3.eid + 1)
                   ELSE Res(st3, "ok", IF node.k = "new" THEN <<n>> ELSE tgt, 0, 0)
-          [] node.k = "fail" -> Res(NewErr(st2), "err", tgt, f, st2.eid + 1)      \* a leaf that always raises
+          [] node.k \in {"fail", "smiss"} ->      \* a leaf that always raises (smiss: S.<missing name>)
+               Res(NewErr(st2, f, 0), "err", tgt, f, st2.eid + 1)
           [] node.k = "probe" ->
                Res(Log(st2, [p |-> path, what |-> "mode", v |-> st2.frames[f].mode]), "ok", tgt, 0, 0)
           [] node.k = "read" ->
@@ -163,7 +165,7 @@ Run(st0, par, node, path, tgt) ==
           [] node.k = "not" ->
                LET rc == Run(st2, f, node.c[1], Append(path, 1), tgt) IN
                IF rc.out = "err" THEN Res(rc.st, "ok", tgt, 0, 0)
-               ELSE Res(NewErr(rc.st), "err", tgt, f, rc.st.eid + 1)
+               ELSE Res(NewErr(rc.st, f, 0), "err", tgt, f, rc.st.eid + 1)
           [] node.k = "switch" -> RunSwitch(st2, f, node, path, 1, tgt)
           [] node.k = "mdict" ->
                \* MDict(k, v) wraps the target into {'K': target} and evaluates the raw dict
@@ -174,7 +176,7 @@ Run(st0, par, node, path, tgt) ==
                    rk == Run(st3, d, node.c[1], Append(path, 1), <<-3>>)
                    inner ==
                      IF rk.out = "err"
-                     THEN Res(NewErr(rk.st), "err", tgt, d, rk.st.eid + 1)        \* key didn't match any
+                     THEN Res(NewErr(rk.st, d, 0), "err", tgt, d, rk.st.eid + 1)        \* key didn't match any
                      ELSE LET ch == Chain(rk.st, d)
                               rv == Run(ch.st, ch.s, node.c[2], Append(path, 2), tgt)
                           IN IF rv.out = "err" THEN rv ELSE Res(rv.st, "ok", <<-4, d>>, 0, 0)
@@ -209,7 +211,7 @@ RunItems(st, f, node, path, j, tgt, acc) ==
 
 \* Coalesce: alternatives in turn; a failing one is skipped; none left -> CoalesceError here
 RunCoal(st, f, node, path, i, tgt) ==
-  IF i > Len(node.c) THEN Res(NewErr(st), "err", tgt, f, st.eid + 1)
+  IF i > Len(node.c) THEN Res(NewErr(st, f, 0), "err", tgt, f, st.eid + 1)
   ELSE LET r == Run(st, f, node.c[i], Append(path, i), tgt)
        IN IF r.out = "ok" THEN r ELSE RunCoal(r.st, f, node, path, i + 1, tgt)
 
@@ -226,7 +228,7 @@ RunAnd(st, f, node, path, i, tgt, last) ==
 
 \* Switch: cases (k1, v1), (k2, v2) ...: first passing key; its value spec chained from it
 RunSwitch(st, f, node, path, i, tgt) ==
-  IF 2 * i > Len(node.c) THEN Res(NewErr(st), "err", tgt, f, st.eid + 1)       \* no matches
+  IF 2 * i > Len(node.c) THEN Res(NewErr(st, f, 0), "err", tgt, f, st.eid + 1)       \* no matches
   ELSE LET rk == Run(st, f, node.c[2 * i - 1], Append(path, 2 * i - 1), tgt)
        IN IF rk.out = "err" THEN RunSwitch(rk.st, f, node, path, i + 1, tgt)
           ELSE LET ch == Chain(rk.st, f)
@@ -235,7 +237,7 @@ RunSwitch(st, f, node, path, i, tgt) ==
 \* one top-level glom(target, tree, scope=callerBinds) call
 Start(tree, plan, callerBinds) ==
   Run([frames |-> <<RootFrame(<<0>>, callerBinds)>>, acts |-> <<>>, leaf |-> 0, eid |-> 0, plan |-> plan,
-       log |-> <<>>, gl |-> <<>>], 1, tree, <<>>, <<0>>)
+       log |-> <<>>, gl |-> <<>>, errs |-> <<>>], 1, tree, <<>>, <<0>>)
 
 \* ---- static tree helpers ------------------------------------------------------------------------
 RECURSIVE NodeAt(_, _)
